@@ -227,7 +227,7 @@ def conditions(tier):
 
 
 META = {
-    "bounds": {"quick": "<=3 comparisons per snapshot; ints, lists <=3, tuples, dicts <=2, nested, dataclass, Is() and inner snapshot() inside containers; 20 ordered pairs of mixed operations",
+    "bounds": {"quick": "<=3 comparisons per snapshot; ints, lists <=3, tuples, dicts <=2, nested, dataclass, Is() and inner snapshot() inside containers; 20 ordered pairs of mixed operations; sessions disabled by flag / CI variable / xdist / xdist worker with any subset of three tests marked xfail (real hooks)",
                "thorough": "same shapes, all form combinations for m=3, `in` with 3 observations"},
     "outside": "values that are not ints/containers of ints; comparisons that raise on the plain value; partially ordered values",
     "assumptions": ["no category flag and no review mode: state().update_flags is empty",
